@@ -83,3 +83,32 @@ std::string chunks_text(const std::vector<Chunk> &cs);
 void for_each_opt(const json &opts, const std::function<void(const std::vector<std::string> &, const json &)> &f);
 
 } // namespace sim
+
+namespace sim {
+
+struct OptRef {
+	json at;    // stepwise address of the section that holds the option
+	json decl;  // the option declaration
+	bool in_multi = false;
+};
+
+// every option of the schema with an address (multi-section instances addressed with index 0..2)
+std::vector<OptRef> collect_opts(Rng &r, const json &opts);
+
+struct ApiGen {
+	bool illegal = true;     // wrong type / bad index / unknown name calls
+	bool sections = true;    // addtsec / rm*sec
+	bool comments = true;    // setcomment
+	bool searchpath = false; // addpath
+	bool by_option = true;   // cfg_opt_set* variants
+	bool text_setters = true; // setopt / setmulti
+	bool bad_text = true;    // unconvertible text for setopt / setmulti
+	bool hostile_strings = false;
+	bool getters = false;
+	bool print = false;
+};
+
+// one random API step (setter / list / section / annotation ...) against the schema
+json gen_api_step(Rng &r, int cl, int ctx, const std::vector<OptRef> &refs, const ApiGen &g);
+
+} // namespace sim
